@@ -41,6 +41,35 @@ CLAIMED = {
         ref="DESIGN.md section 5 C05",
         technique="Coq proof (loop invariant by induction on fuel, generic in the CFI oracle) + translator (guard key, loop bounds, register tables) + end-to-end differential correspondence against a frame-pointer walk",
         note=TB + " gimli's CFI evaluation and compiler-emitted .eh_frame are parameters of the theorems (cross-checked only against the rbp chain)."),
+    "C01": dict(
+        text=("Theorems (Coq, arbitrary native traces, hence any loop/recursion): from any prompt of the patch machine `continue` stops at the first later "
+              "position that carries a user breakpoint, with its true pc and number, leaves registry and memory as they were, and ends with the whole trace "
+              "executed otherwise (C01_projection_partial); removal by address silences the location (C01_removed_silent_partial); memory = image + 0xCC patches "
+              "at every prompt. Partial: needs no self-jumping instruction and starts from an established prompt; refuted corner cases are stated "
+              "(`break remove 0`, removal after exit, self-loop). Tie: real breakpoint histories on generated programs against the harness's own native "
+              "instruction trace, decided in Coq by the trace-level spec."),
+        ref="DESIGN.md section 5 C01",
+        technique="Coq proof (patch-machine invariant over an arbitrary native trace) + end-to-end differential correspondence against an independent single-step trace, evaluated by vm_compute",
+        note=TB + " x86 int3 semantics at the level 'fetching 0xCC traps with pc+1'; breakpoints at instruction starts; single-threaded."),
+    "C02": dict(
+        text=("Theorems (Coq): the executed instruction sequence at every prompt is a prefix of the native trace (C02_transparent_partial), stepping over a "
+              "breakpoint executes the original instruction exactly once and restores memory (C02_step_over_once, adjacent breakpoints in one word do not disturb "
+              "each other), detach/drop leave memory equal to the image (C02_clean_after_detach_partial); early-return paths that leak temporaries are refuted with a "
+              "witness. Tie: after every command of real histories the program's executable mapping is compared byte by byte with the ELF file (difference = the "
+              "user's breakpoints + the entry point) and output/exit status with a native run."),
+        ref="DESIGN.md section 5 C02",
+        technique="Coq proof (patch-machine invariant) + end-to-end byte-level comparison of /proc/<pid>/mem with the ELF image after every command",
+        note=TB + " step*/call/watch commands are covered by the C03/C16/C14 checks, not by this leg yet."),
+    "C12": dict(
+        text=("Theorems (Coq, any request sequence, any handler scripts, any schedule of the forwarder threads): with sequence numbers taken under the transport "
+              "lock - which the translator reads from the source - the wire carries 1,2,3,... in order for every interleaving (C12_seq_discipline); every request "
+              "whose handler answers at most once gets exactly one response with matching request_seq/command (C12_one_response_now); a failing handler is answered "
+              "with an error exactly when it has not answered; lifecycle events at most once and in order for any event queue (C12_drain_lifecycle). Open "
+              "refutations are stated with witnesses. Tie: real request histories with concurrent debuggee output against a real DebugSession; transcripts "
+              "decided in Coq by the wire-level spec."),
+        ref="DESIGN.md section 5 C12",
+        technique="Coq proof (interleaving semantics of lock/alloc/write actions, induction over schedules and request lists) + translator (where sequence numbers are taken, run-loop guard) + end-to-end transcripts checked by vm_compute",
+        note=TB + " handlers enter the theorems as arbitrary scripts over the messaging primitives; per-handler path coverage is by generated requests."),
 }
 
 NOT_YET = {
